@@ -458,7 +458,17 @@ class NDNApp:
         name = Name.normalize(name)
         del self._prefix_tree[name]
         try:
-            await self.express_interest(make_command('rib', 'unregister', self.face, name=name), lifetime=1000)
+            _, _, reply = await self.express_interest(
+                make_command('rib', 'unregister', self.face, name=name), lifetime=1000)
+            try:
+                ret = parse_response(reply)
+            except (DecodeError, ValueError, IndexError, TypeError, struct.error):
+                self.logger.error('Unregistration for %s failed: malformed response', Name.to_str(name))
+                return False
+            if ret['status_code'] != 200:
+                self.logger.error('Unregistration for %s failed: %s %s',
+                                  Name.to_str(name), ret["status_code"], ret["status_text"])
+                return False
             return True
         except (InterestNack, InterestTimeout, InterestCanceled, ValidationFailure):
             return False
